@@ -17,9 +17,11 @@ from __future__ import annotations
 import json
 import multiprocessing as mp
 import os
+import shutil
 import sys
+import tempfile
 import types
-from typing import Dict, List
+from typing import Dict, List, Optional, Union
 
 from ..lib import common, tlc
 from ..lib.evidence import Report, machinery_failure
@@ -36,28 +38,39 @@ NPROC = int(os.environ.get("VERIF_PROCS", "16"))
 # ------------------------------------------------------------------------------------- generated classes / functions
 GEN = types.ModuleType("verif_lp_gen")
 sys.modules["verif_lp_gen"] = GEN
+OPT = Optional[Union[int, str, List[int]]]  # the Optional value domain: None, 0, 3, '', []
+GEN.OPT = OPT
+GEN.Optional = Optional
 exec('''
 class Base:
-    def __init__(self, p: int = 0, q: int = 0): self.p, self.q = p, q
+    def __init__(self, p: OPT = 0, q: int = 0): self.p, self.q = p, q
 class Sub(Base):
-    def __init__(self, p: int = 0, q: int = 0, r: int = 0): self.p, self.q, self.r = p, q, r
+    def __init__(self, p: OPT = 0, q: int = 0, r: int = 0): self.p, self.q, self.r = p, q, r
 class NoP(Base):
     def __init__(self, q: int = 0): self.q = q
 class BaseR:
-    def __init__(self, p: int, q: int = 0): self.p, self.q = p, q
+    def __init__(self, p: OPT, q: int = 0): self.p, self.q = p, q
 class SubR(BaseR):
-    def __init__(self, p: int, q: int = 0, r: int = 0): self.p, self.q, self.r = p, q, r
+    def __init__(self, p: OPT, q: int = 0, r: int = 0): self.p, self.q, self.r = p, q, r
 class NoPR(BaseR):
     def __init__(self, q: int = 0): self.q = q
 class G:
     def __init__(self, x: int = 1, y: int = 2): self.x, self.y = x, y
+class Src:
+    def __init__(self, limit: OPT = None, q: int = 0): self.limit, self.q = limit, q
+class SrcSub(Src):
+    def __init__(self, limit: OPT = 5, q: int = 0): self.limit, self.q = limit, q
+class SrcNoL(Src):
+    def __init__(self, q: int = 0): self.q = q
 def f_one(a): return a * 10 + 7
 def f_lin(a, b): return a * 10 + b
 def f_grp(g): return g.x * 10 + g.y
+def f_tot(v): return 91 if v is None else 92 if v == "" else 93 if v == [] else v * 10 + 7
+def f_cls(v): return 94 if v is None else {"Src": 1, "SrcSub": 2}.get(v["class_path"].rsplit(".", 1)[-1], 3)
 ''', GEN.__dict__)
-for _n in ("Base", "Sub", "NoP", "BaseR", "SubR", "NoPR", "G"):
+for _n in ("Base", "Sub", "NoP", "BaseR", "SubR", "NoPR", "G", "Src", "SrcSub", "SrcNoL"):
     GEN.__dict__[_n].__module__ = "verif_lp_gen"
-FN = {"id": None, "one": GEN.f_one, "lin": GEN.f_lin, "grp": GEN.f_grp, "asdict": None}
+FN = {"id": None, "one": GEN.f_one, "lin": GEN.f_lin, "grp": GEN.f_grp, "asdict": None, "tot": GEN.f_tot, "cls": GEN.f_cls}
 
 
 def build(shape):
@@ -70,11 +83,18 @@ def build(shape):
     p.add_argument("--b", type=int, default=2)
     p.add_class_arguments(GEN.G, "g")
     tg = {l["tgt"] for l in shape["links"]}
+    srcs = {x for l in shape["links"] for x in l["srcs"]}
+    if srcs & {"s", "sl"}:
+        p.add_argument("--s", type=Optional[GEN.Src], default=None)
+    if "o" in srcs:
+        p.add_argument("--o", type=OPT, default=None)
     if "t" in tg:
+        # a target fed by the identity link from an Optional source has the Optional type itself
+        ttype = OPT if any(l["tgt"] == "t" and l["fn"] == "id" and l["srcs"][0] in ("o", "sl") for l in shape["links"]) else int
         if shape["req"]:
-            p.add_argument("--t", type=int, required=True)
+            p.add_argument("--t", type=ttype, required=True)
         else:
-            p.add_argument("--t", type=int, default=9)
+            p.add_argument("--t", type=ttype, default=9)
     if "d" in tg:
         if shape["req"]:
             p.add_argument("--d", type=Dict[str, int], required=True)
@@ -83,13 +103,13 @@ def build(shape):
     if "mp" in tg:
         base = GEN.__dict__["Base" + R]
         if shape["mkind"] == "init":
-            p.add_argument("--m", type=base)
+            p.add_argument("--m", type=base, enable_path=True)
         elif shape["mkind"] == "list":
             p.add_argument("--m", type=List[base])
         else:
             p.add_class_arguments(base, "m")
     for l in shape["links"]:
-        srcs = tuple(l["srcs"])
+        srcs = tuple({"sl": "s.init_args.limit"}.get(x, x) for x in l["srcs"])
         tgt = {"t": "t", "d": "d", "mp": "m.p" if shape["mkind"] == "grp" else "m.init_args.p"}[l["tgt"]]
         p.link_arguments(srcs if len(srcs) > 1 else srcs[0], tgt, FN[l["fn"]])
     if shape["sub"]:
@@ -106,6 +126,10 @@ def plain(v):
         return None
     if k == "dict":
         return {"x": v["x"], "y": v["y"]}
+    if k == "str":
+        return v["v"]
+    if k == "elist":
+        return []
     raise AssertionError(v)
 
 
@@ -126,8 +150,16 @@ def concrete_spec(shape, spec, n=0):
 def item_value(shape, it, n=0):
     """the python value an item assigns, and the dotted key it assigns to"""
     key, val = it["key"], it["val"]
-    if key in ("a", "b", "t"):
+    if key in ("a", "b", "t", "o"):
         return key, plain(val)
+    if key == "s":
+        if val["k"] == "null":
+            return "s", None
+        g = given_of(val)
+        cp = f"verif_lp_gen.{val['c']}"
+        return "s", ({"class_path": cp} if not g and n % 2 == 0 else {"class_path": cp, "init_args": g})
+    if key == "sl":
+        return ("s.limit" if n % 2 else "s.init_args.limit"), plain(val)
     if key in ("gx", "gy"):
         return "g." + key[1], plain(val)
     if key == "d":
@@ -161,14 +193,17 @@ def merge(a, b):
     return a
 
 
-def concretise(shape, api, items, n=0):
-    """-> (environ additions, argv) for parse_args, or (None, object) for parse_object / parse_string"""
+def concretise(shape, api, items, n=0, write=False):
+    """-> (environ additions, argv) for parse_args, or (None, object) for parse_object / parse_string.
+    Items of the channels "file" / "cfgfile" name files in the current directory; they are written when write=True."""
     if api in ("object", "string"):
         obj = {}
         for j, it in enumerate(items):
             k, v = item_value(shape, it, 1)  # objects use the short keys m.p / m.q only for groups; class args go through init_args
             if it["key"] in ("mq", "mp") and shape["mkind"] != "grp":
                 k = "m.init_args." + k.rsplit(".", 1)[1]
+            if it["key"] == "sl":
+                k = "s.init_args.limit"
             merge(obj, nest(k, v))
         return None, ({"subcommand": "fit", "fit": obj} if shape["sub"] else obj)
     env, argv = {}, (["fit"] if shape["sub"] else [])
@@ -179,6 +214,18 @@ def concretise(shape, api, items, n=0):
             env[name] = json.dumps(v) if not isinstance(v, str) else v
         elif it["chan"] == "cfg":
             argv.append("--cfg=" + json.dumps(nest(k, v)))
+        elif it["chan"] in ("file", "cfgfile"):  # the value lives in its own file (it will carry __path__)
+            sub = f"{k}_{j}.yaml"
+            if write:
+                with open(sub, "w") as f:
+                    f.write(yaml.safe_dump(v))
+            if it["chan"] == "file":
+                argv.append(f"--{k}={sub}")
+            else:
+                if write:
+                    with open(f"main_{j}.yaml", "w") as f:
+                        f.write(yaml.safe_dump({k: sub}))
+                argv.append(f"--cfg=main_{j}.yaml")
         else:
             argv.append(f"--{k}=" + (json.dumps(v) if not isinstance(v, str) else v))
     return env, argv
@@ -192,12 +239,21 @@ def a_val(v):
         return {"k": "other", "r": repr(v)}
     if isinstance(v, int):
         return {"k": "int", "v": v} if -2 ** 30 < v < 2 ** 30 else {"k": "other", "r": str(v)}
+    if v == "" and isinstance(v, str):
+        return {"k": "str", "v": ""}
+    if v == [] and isinstance(v, list):
+        return {"k": "elist"}
     if isinstance(v, dict) and set(v) == {"x", "y"} and all(isinstance(x, int) and not isinstance(x, bool) for x in v.values()):
         return {"k": "dict", "x": v["x"], "y": v["y"]}
     return {"k": "other", "r": repr(v)[:60]}
 
 
+def is_meta(k) -> bool:
+    return isinstance(k, str) and k.startswith("__") and k.endswith("__")
+
+
 def a_cls(d):
+    d = {k: v for k, v in d.items() if not is_meta(k)}
     cp = d.get("class_path")
     name = cp.rsplit(".", 1)[-1] if isinstance(cp, str) else "?"
     if name.endswith("R") and name[:-1] in ("Base", "Sub", "NoP"):
@@ -206,7 +262,22 @@ def a_cls(d):
     extra = set(d) - {"class_path", "init_args"}
     if extra or not isinstance(ia, dict):
         return {"k": "other", "r": repr(d)[:60]}
-    return {"k": "cls", "c": name, "ia": {k: a_val(v) for k, v in ia.items()}}
+    return {"k": "cls", "c": name, "ia": {k: a_val(v) for k, v in ia.items() if not is_meta(k)}}
+
+
+def a_m(v):
+    """the value of m (in a configuration, or the content of its sub-config file)"""
+    if v is None:
+        return {"k": "none"}
+    if isinstance(v, str):
+        return {"k": "ref"}  # the name of a sub-config file
+    if isinstance(v, list):
+        return {"k": "list", "v": [a_cls(x) if isinstance(x, dict) else {"k": "other", "r": repr(x)[:40]} for x in v]}
+    if isinstance(v, dict) and "class_path" in v:
+        return a_cls(v)
+    if isinstance(v, dict):
+        return {"k": "grp", "ia": {k: a_val(x) for k, x in v.items() if not is_meta(k)}}
+    return {"k": "other", "r": repr(v)[:60]}
 
 
 def alpha(cfg, shape) -> dict:
@@ -215,39 +286,103 @@ def alpha(cfg, shape) -> dict:
     if shape["sub"]:
         d = d.get("fit") or {}
     g = d.get("g") if isinstance(d.get("g"), dict) else {}
+    tg = {l["tgt"] for l in shape["links"]}
+    srcs = {x for l in shape["links"] for x in l["srcs"]}
     out = {"a": a_val(d.get("a")), "b": a_val(d.get("b")), "gx": a_val(g.get("x")), "gy": a_val(g.get("y")),
            "t": a_val(d["t"]) if "t" in d else {"k": "absent"}, "d": a_val(d["d"]) if "d" in d else {"k": "absent"}}
-    if "m" not in d:
-        out["m"] = {"k": "absent"} if "mp" not in {l["tgt"] for l in shape["links"]} else {"k": "none"}
-    elif d["m"] is None:
-        out["m"] = {"k": "none"}
-    elif isinstance(d["m"], list):
-        out["m"] = {"k": "list", "v": [a_cls(x) if isinstance(x, dict) else {"k": "other", "r": repr(x)[:40]} for x in d["m"]]}
-    elif isinstance(d["m"], dict) and "class_path" in d["m"]:
-        out["m"] = a_cls(d["m"])
-    elif isinstance(d["m"], dict):
-        out["m"] = {"k": "grp", "ia": {k: a_val(v) for k, v in d["m"].items()}}
+    # declared arguments that a dump leaves out because they are None read as None
+    out["m"] = a_m(d["m"]) if "m" in d else ({"k": "none"} if "mp" in tg else {"k": "absent"})
+    if srcs & {"s", "sl"}:
+        out["s"] = {"k": "none"} if d.get("s") is None else (a_cls(d["s"]) if isinstance(d["s"], dict) else {"k": "other", "r": repr(d["s"])[:60]})
     else:
-        out["m"] = {"k": "other", "r": repr(d["m"])[:60]}
-    extra = set(d) - {"a", "b", "g", "t", "d", "m", "cfg", "__path__"}
+        out["s"] = {"k": "absent"} if "s" not in d else {"k": "other", "r": "unexpected s"}
+    if "o" in srcs:
+        out["o"] = a_val(d.get("o"))
+    else:
+        out["o"] = {"k": "absent"} if "o" not in d else {"k": "other", "r": "unexpected o"}
+    out["mpath"] = {"k": "path"} if isinstance(d.get("m"), dict) and "__path__" in d["m"] else {"k": "absent"}
+    extra = {k for k in d if not is_meta(k)} - {"a", "b", "g", "t", "d", "m", "s", "o", "cfg"}
     if extra:
         out["a"] = {"k": "other", "r": "unexpected keys " + ",".join(sorted(extra))}
     return out
 
 
 PLACEHOLDER = {"a": {"k": "int", "v": 1}, "b": {"k": "int", "v": 2}, "gx": {"k": "int", "v": 1}, "gy": {"k": "int", "v": 2},
-               "t": {"k": "absent"}, "d": {"k": "absent"}, "m": {"k": "absent"}}
+               "t": {"k": "absent"}, "d": {"k": "absent"}, "m": {"k": "absent"}, "s": {"k": "absent"}, "o": {"k": "absent"}, "mpath": {"k": "absent"}}
+ABSENT = {"k": "absent"}
+WORKBASE = None  # scratch directory of the run (set before the worker pool is forked)
 
 
-def run_case(shape, api, items, n=0):
-    """the real code on one case -> observation"""
-    ob = {"out": {"ok": False, "c": PLACEHOLDER}, "dumped": False, "dump": PLACEHOLDER, "re": {"ok": False, "c": PLACEHOLDER}, "exc": "", "call": ""}
+def observe_save(parser, cfg, shape, ob):
+    """save() in both modes into fresh directories: read EVERY written file back"""
+    os.makedirs("sm")
+    os.makedirs("ss")
+    parser.save(cfg, "sm/main.yaml")
+    raw = yaml.safe_load(open("sm/main.yaml").read()) or {}
+    ob["smain"] = alpha(raw, shape)
+    inner = (raw.get("fit") or {}) if shape["sub"] else raw
+    names = {"main.yaml"}
+    if isinstance(inner.get("m"), str):
+        names.add(inner["m"])
+        ob["ssub"] = a_m(yaml.safe_load(open(os.path.join("sm", inner["m"])).read())) if os.path.isfile(os.path.join("sm", inner["m"])) else {"k": "other", "r": "missing sub-config file"}
+    # any further file (sub-configs of other groups): it must not hold a target either
+    tkeys = {"t", "d", "p"} & ({l["tgt"] for l in shape["links"]} | ({"p"} if any(l["tgt"] == "mp" for l in shape["links"]) else set()))
+    for f in sorted(os.listdir("sm")):
+        if f not in names:
+            txt = yaml.safe_load(open(os.path.join("sm", f)).read())
+            if isinstance(txt, dict) and (tkeys & set(txt) or tkeys & set(txt.get("init_args") or {})):
+                ob["ssub"] = {"k": "other", "r": f"target in extra file {f}"}
+    parser.save(cfg, "ss/main.yaml", multifile=False)
+    if sorted(os.listdir("ss")) != ["main.yaml"]:
+        ob["ssingle"] = dict(PLACEHOLDER, a={"k": "other", "r": "single-file save wrote " + ",".join(sorted(os.listdir("ss")))})
+    else:
+        ob["ssingle"] = alpha(yaml.safe_load(open("ss/main.yaml").read()), shape)
+    ob["saved"] = True
+    try:
+        ob["sre"] = {"ok": True, "c": alpha(parser.parse_path("sm/main.yaml"), shape)}
+    except BaseException as ex:
+        ob["exc"] = f"parse of the saved file: {type(ex).__name__}: {ex}"[:200]
+
+
+def observe_print(shape, env, arg, ob):
+    """--print_config on a fresh parser with the same input: what is printed"""
+    import contextlib
+    import io
     parser = build(shape)
-    env, arg = concretise(shape, api, items, n)
+    buf = io.StringIO()
+    os.environ.update(env)
+    try:
+        with contextlib.redirect_stdout(buf):
+            parser.parse_args(list(arg) + ["--print_config"])
+        ob["exc"] = "print_config did not exit"
+    except SystemExit as ex:
+        if ex.code in (0, None):
+            loaded = yaml.safe_load(buf.getvalue())
+            ob["printed"] = alpha({"fit": loaded} if shape["sub"] else loaded, shape)
+            ob["pok"] = True
+        else:
+            ob["exc"] = f"print_config exit status {ex.code}"
+    except BaseException as ex:
+        ob["exc"] = f"print_config: {type(ex).__name__}: {ex}"[:200]
+    finally:
+        for k in env:
+            os.environ.pop(k, None)
+
+
+def run_case(shape, api, items, n=0, do_save=True, do_print=False):
+    """the real code on one case -> observation (runs in a scratch directory of its own)"""
+    ob = {"out": {"ok": False, "c": PLACEHOLDER}, "dumped": False, "dump": PLACEHOLDER, "re": {"ok": False, "c": PLACEHOLDER}, "exc": "", "call": "",
+          "ptried": False, "pok": False, "printed": PLACEHOLDER,
+          "saved": False, "tried_save": False, "smain": PLACEHOLDER, "ssub": ABSENT, "ssingle": PLACEHOLDER, "sre": {"ok": False, "c": PLACEHOLDER}}
+    here = os.getcwd()
+    work = tempfile.mkdtemp(prefix="case-", dir=WORKBASE)
+    os.chdir(work)
     saved = {k: os.environ.get(k) for k in list(os.environ) if k.startswith("APP_")}
     for k in saved:
         del os.environ[k]
     try:
+        parser = build(shape)
+        env, arg = concretise(shape, api, items, n, write=True)
         try:
             if api == "args":
                 os.environ.update(env)
@@ -277,9 +412,20 @@ def run_case(shape, api, items, n=0):
             ob["re"] = {"ok": True, "c": alpha(parser.parse_string(text), shape)}
         except BaseException as ex:
             ob["exc"] = f"reparse: {type(ex).__name__}: {ex}"[:200]
+        if do_save or ob["out"]["c"]["mpath"]["k"] == "path":
+            ob["tried_save"] = True
+            try:
+                observe_save(parser, cfg, shape, ob)
+            except BaseException as ex:
+                ob["exc"] = f"save: {type(ex).__name__}: {ex}"[:200]
+        if do_print and api == "args":
+            ob["ptried"] = True
+            observe_print(shape, env, arg, ob)
         return ob
     finally:
         os.environ.update({k: v for k, v in saved.items() if v is not None})
+        os.chdir(here)
+        shutil.rmtree(work, ignore_errors=True)
 
 
 def norm(x):
@@ -295,14 +441,21 @@ def _case_chunk(args):
     cases, base = args
     out = []
     for ci, c in enumerate(cases):
+        # save() is observed whenever m carries __path__ (predicted or real) and on every fourth other case
+        do_save = c["smain"]["m"]["k"] == "ref" or any(it["chan"] in ("file", "cfgfile") for it in c["items"]) or (base + ci) % 4 == 0
         try:
-            ob = run_case(c["shape"], c["api"], c["items"], base + ci)
+            ob = run_case(c["shape"], c["api"], c["items"], base + ci, do_save=do_save, do_print=(base + ci) % 8 == 0)
         except Exception as ex:  # gamma could not build the case
             out.append((base + ci, False, {"gamma_error": f"{type(ex).__name__}: {ex}"[:300]}))
             continue
         same = ob["out"]["ok"] == c["ok"]
         if same and c["ok"]:
             same = ob["out"]["c"] == c["c"] and ob["dumped"] and ob["dump"] == c["dump"] and ob["re"]["ok"] == c["reok"] and (not c["reok"] or ob["re"]["c"] == c["rec"])
+        if same and c["ok"] and ob["tried_save"]:
+            same = (ob["saved"] and ob["smain"] == c["smain"] and ob["ssub"] == c["ssub"] and ob["ssingle"] == c["dump"]
+                    and ob["sre"]["ok"] == c["sreok"] and (not c["sreok"] or ob["sre"]["c"] == c["srec"]))
+        if ob["ptried"] and ob["out"]["ok"]:
+            ob["to_trace"] = True  # the printed configuration is judged by TLC (it is not part of the prediction)
         out.append((base + ci, same, ob))
     return out
 
@@ -311,13 +464,18 @@ def _case_chunk(args):
 def random_case(rnd):
     I = lambda n: {"k": "int", "v": n}
     cand = [(["a"], "id", "t"), (["a"], "one", "t"), (["a", "b"], "lin", "t"), (["b", "a"], "lin", "t"), (["g"], "grp", "t"), (["g"], "asdict", "d"),
-            (["a"], "id", "mp"), (["b"], "one", "mp"), (["a", "b"], "lin", "mp"), (["g"], "grp", "mp")]
+            (["a"], "id", "mp"), (["b"], "one", "mp"), (["a", "b"], "lin", "mp"), (["g"], "grp", "mp"),
+            (["sl"], "id", "t"), (["sl"], "tot", "t"), (["sl"], "id", "mp"), (["sl"], "tot", "mp"), (["s"], "cls", "t"), (["o"], "id", "t"), (["o"], "tot", "t"), (["o"], "id", "mp")]
     links, used = [], set()
     for s, f, t in rnd.sample(cand, rnd.randint(1, 4)):
         if t not in used:
             used.add(t)
             links.append({"srcs": s, "fn": f, "tgt": t})
-    shape = {"links": links, "mkind": rnd.choice(["init", "list", "grp"]) if "mp" in used else "init", "req": rnd.random() < 0.5, "sub": rnd.random() < 0.25}
+    srcs = {x for l in links for x in l["srcs"]}
+    opt = bool(srcs & {"s", "sl", "o"})
+    shape = {"links": links, "mkind": rnd.choice(["init", "grp"] if opt else ["init", "list", "grp"]) if "mp" in used else "init", "req": rnd.random() < 0.5,
+             "sub": (not opt) and rnd.random() < 0.25}
+    OV = [{"k": "none"}, I(0), I(3), I(2), {"k": "str", "v": ""}, {"k": "elist"}]
     api = rnd.choice(["args", "args", "object", "string"])
     chans = ["env", "cfg", "argv"] if api == "args" else ["obj"]
     items = []
@@ -331,6 +489,10 @@ def random_case(rnd):
     for _ in range(rnd.randint(0, 6)):
         ch = rnd.choice(chans)
         keys = ["a", "b", "gx", "gy"] + [t for t in ("t",) if t in used]
+        if "o" in srcs and ch in ("argv", "cfg", "obj"):
+            keys += ["o", "o"]
+        if srcs & {"s", "sl"} and ch in ("argv", "cfg", "obj"):
+            keys += ["s", "s", "sl"]
         if "mp" in used and ch != "env":
             keys += ["m", "m"] + (["mq", "mp"] if shape["mkind"] != "list" and ch in ("argv",) else []) + (["mp"] if shape["mkind"] == "grp" and ch in ("cfg", "obj") else [])
         if "d" in used and ch in ("cfg", "obj"):
@@ -338,6 +500,11 @@ def random_case(rnd):
         key = rnd.choice(keys)
         if key in ("a", "b", "gx", "gy"):
             val = I(rnd.randint(0, 4))
+        elif key in ("o", "sl"):
+            val = rnd.choice(OV)
+        elif key == "s":
+            val = rnd.choice([{"k": "null"}, {"k": "spec", "c": "Src", "given": {}}, {"k": "spec", "c": "Src", "given": {"limit": rnd.choice(OV)}},
+                              {"k": "spec", "c": "SrcSub", "given": {}}, {"k": "spec", "c": "SrcSub", "given": {"limit": rnd.choice(OV)}}, {"k": "spec", "c": "SrcNoL", "given": {}}])
         elif key == "t":
             val = I(5)
         elif key == "d":
@@ -350,7 +517,12 @@ def random_case(rnd):
             val = {"k": "specs", "v": [fix(spec()) for _ in range(rnd.randint(0, 3))]}
         else:
             val = {"k": "spec", "c": "Base", "given": rnd.choice([{"q": I(3)}, {"p": I(5)}, {"p": I(5), "q": I(2)}])}
+        if key == "m" and ch == "argv" and shape["mkind"] != "list" and not shape["sub"] and rnd.random() < 0.4:
+            ch = rnd.choice(["file", "cfgfile"])  # the spec comes from its own file
         items.append({"chan": ch, "key": key, "val": val})
+    # --s.limit on a class without that parameter is an invalid input
+    if any(it["key"] == "sl" for it in items):
+        items = [it for it in items if not (it["key"] == "s" and it["val"].get("c") == "SrcNoL")]
     if api == "args":
         items.sort(key=lambda it: it["chan"] != "env")  # the environment is read first
         seen = set()
@@ -358,7 +530,7 @@ def random_case(rnd):
     else:  # one dict: distinct keys, and no m.q / m.p next to a whole m
         seen, keep = set(), []
         for it in items:
-            grp = "m" if it["key"] in ("m", "mq", "mp") else it["key"]
+            grp = "m" if it["key"] in ("m", "mq", "mp") else "s" if it["key"] in ("s", "sl") else it["key"]
             if grp not in seen:
                 seen.add(grp)
                 keep.append(it)
@@ -371,7 +543,7 @@ def _random_chunk(args):
     out = []
     for i, c in enumerate(cases):
         try:
-            out.append((base + i, c, run_case(c["shape"], c["api"], c["items"], base + i)))
+            out.append((base + i, c, run_case(c["shape"], c["api"], c["items"], base + i, do_print=(base + i) % 2 == 0)))
         except Exception as ex:
             out.append((base + i, c, {"gamma_error": f"{type(ex).__name__}: {ex}"[:300]}))
     return out
@@ -431,8 +603,10 @@ def main(argv):
         "sources of class type (links ignored when the source class is absent), print_config and sources supplying null are not covered",
         "every case runs on a freshly built parser in a worker process whose APP_* environment is restored after the case",
     ]
-    pool = mp.get_context("fork").Pool(NPROC)
+    global WORKBASE
     tmp = common.scratch("c15")
+    WORKBASE = str(tmp)  # the workers (forked next) run every case in a directory of its own below it
+    pool = mp.get_context("fork").Pool(NPROC)
     clock = common.Timer()
     timing = rep.extra.setdefault("timing_s", {})
     try:
@@ -456,14 +630,18 @@ def main(argv):
 
         # ---------------------------------------------------------------- REPLAY
         obs = []  # (case, observation, origin)
-        n_same = n_dev = 0
+        n_same = n_dev = n_print = 0
         chunks = [(cases[i:i + 250], i) for i in range(0, len(cases), 250)]
         for res in pool.imap_unordered(_case_chunk, chunks):
             for idx, same, ob in res:
                 c = cases[idx]
                 if "gamma_error" in ob:
                     machinery_failure(PID, f"gamma could not run case {json.dumps(c)[:500]}: {ob['gamma_error']}")
-                if same and c["dev"]:
+                if ob.get("to_trace"):
+                    n_same += 1 if same else 0
+                    n_print += 1
+                    obs.append((c, ob, "model"))
+                elif same and c["dev"]:
                     n_dev += 1
                     rep.violation("dump-keeps-target:list-item", "dump() keeps the link target inside the items of a list of classes",
                                   {"shape": c["shape"], "api": c["api"], "items": c["items"], "python": ob["call"] + "; parser.dump(cfg)", "observed": ob, "origin": "model"})
@@ -477,6 +655,7 @@ def main(argv):
         rep.extra["cases_emitted"] = len(cases)
         rep.extra["cases_identical_to_prediction"] = n_same
         rep.extra["cases_in_recorded_deviation"] = n_dev
+        rep.extra["cases_with_print_config_sent_to_tlc"] = n_print
         rep.extra["cases_rejected_by_spec"] = sum(1 for c in cases if not c["ok"])
         rep.extra["cases_supplying_the_target"] = sum(1 for c in cases if any(it["key"] in ("t", "d", "mp") or (it["key"] == "m" and "\"p\"" in json.dumps(it["val"])) for it in c["items"]))
         rep.extra["shapes"] = len({json.dumps(c["shape"], sort_keys=True) for c in cases})
@@ -512,7 +691,9 @@ def main(argv):
         for cidx in range(max(1, (len(obs) + CH - 1) // CH)):
             part = obs[cidx * CH:(cidx + 1) * CH]
             f = tmp / f"trace{cidx}.json"
-            f.write_text(json.dumps({"obs": [{"shape": c["shape"], "items": c["items"], "out": ob["out"], "dumped": ob["dumped"], "dump": ob["dump"], "re": ob["re"]}
+            f.write_text(json.dumps({"obs": [{"shape": c["shape"], "items": c["items"], "out": ob["out"], "dumped": ob["dumped"], "dump": ob["dump"], "re": ob["re"],
+                                              "ptried": ob["ptried"] and ob["out"]["ok"], "pok": ob["pok"], "printed": ob["printed"],
+                                              "tried": ob["tried_save"], "saved": ob["saved"], "smain": ob["smain"], "ssub": ob["ssub"], "ssingle": ob["ssingle"], "sre": ob["sre"]}
                                              for c, ob, _o in part], "links": lc if cidx == 0 else []}))
             tr = run_trace("Trace_LinksParse", f, len(part) + (len(lc) if cidx == 0 else 0))
             rep.add_tlc(f"Trace_LinksParse[{cidx}]", tr)
